@@ -58,10 +58,40 @@ func unmarshalFromYaml(yamlSpecs []byte) ([]OperationSpec, error) {
 			return nil, err
 		}
 
+		// yaml.v3 decodes numbers in free-form fields to int, uint64, ... while the
+		// JSON decoder yields float64: Unstructured.DeepCopy panics on int. Convert
+		// these fields to the types of the JSON path.
+		for _, field := range []*any{&doc.Object, &doc.MergePatch, &doc.JSONPatch} {
+			*field, err = toJSONTypes(*field)
+			if err != nil {
+				return nil, err
+			}
+		}
+
 		specSlice = append(specSlice, doc)
 	}
 
 	return specSlice, nil
+}
+
+// toJSONTypes converts a value decoded from YAML to the Go types encoding/json
+// produces for the same document (map[string]any, []any, float64, string, bool, nil).
+func toJSONTypes(value any) (any, error) {
+	if value == nil {
+		return nil, nil
+	}
+
+	data, err := json.Marshal(value)
+	if err != nil {
+		return nil, err
+	}
+
+	var converted any
+	if err := json.Unmarshal(data, &converted); err != nil {
+		return nil, err
+	}
+
+	return converted, nil
 }
 
 func applyJQPatch(jqFilter string, fl filter.Filter, obj *unstructured.Unstructured) (*unstructured.Unstructured, error) {
